@@ -200,13 +200,21 @@ def errText (e : String) : String :=
   else if e.startsWith "unmarshalling failed" then "unmarshalling failed"
   else e
 
-/-- decode outcome; second component: passes (statistics only, not compared) -/
-def showDecode (r : Option (Res Iblt.DState)) : String × Nat :=
+/-- statistics only (not compared): the number of passes of the outer loop, also when Decode ends in an error -/
+def countPasses (c : Iblt.Cfg) : Nat → Iblt.DState → Nat → Nat
+  | 0, _, n => n
+  | f + 1, s, n =>
+    match Iblt.pass c H s.buckets.size 0 s false with
+    | .ok (s', true) => countPasses c f s' (n + 1)
+    | _ => n + 1
+
+/-- decode outcome -/
+def showDecode (r : Option (Res Iblt.DState)) : String :=
   match r with
-  | none => ("timeout", 0)
-  | some (.ok s) => (s!"ok rem={digest s.remaining.reverse} mis={digest s.missing.reverse}", s.passes)
-  | some (.err e) => (if e.startsWith "HANG" then "timeout" else "err:" ++ errText e, 0)
-  | some (.panic p) => ("panic:" ++ siteFn p, 0)
+  | none => "timeout"
+  | some (.ok s) => s!"ok rem={digest s.remaining.reverse} mis={digest s.missing.reverse}"
+  | some (.err e) => if e.startsWith "HANG" then "timeout" else "err:" ++ errText e
+  | some (.panic p) => "panic:" ++ siteFn p
 
 def resCls {α} (r : Res α) (okText : α → String) : String :=
   match r with
@@ -229,7 +237,8 @@ def stepSet (j : Json) : List String :=
       | .err e => [um ++ " sub=err:" ++ errText e]
       | .panic p => [um ++ " sub=panic:" ++ siteFn p]
       | .ok diff =>
-        let (d, passes) := showDecode (Iblt.decode c H diff.buckets)
+        let d := showDecode (Iblt.decode c H diff.buckets)
+        let passes := if d == "timeout" then 0 else countPasses c 100000 (Iblt.DState.init diff.buckets) 0
         [um ++ " sub=ok dec=" ++ d ++ s!" #passes={passes}"]
   | _, _ => ["build-failed"]
 
@@ -249,10 +258,10 @@ def stepRaw (j : Json) : List String :=
   | .err e => ["err:" ++ errText e]
   | .panic p => ["panic:" ++ siteFn p]
   | .ok bs =>
-    let (d, passes) := showDecode (Iblt.decode c H bs)
+    let d := showDecode (Iblt.decode c H bs)
     if d == "timeout" then ["timeout"] else
     if d.startsWith "panic" then [d] else
-    [s!"ok:{bs.size} dec={d} #passes={passes}"]
+    [s!"ok:{bs.size} dec={d} #passes={countPasses c 100000 (Iblt.DState.init bs) 0}"]
 
 def stepMurmur (j : Json) : String :=
   let k := keyOfHex (jStr j "key")
